@@ -285,6 +285,203 @@ fn add_inst_probes(sc: &mut Scenario, batch: &[QAct]) {
 }
 
 /// fixed corpus: every shape x every writer variant, each preceded by a call that re-commits the key
+// ---------- rollback shapes: the code behind an address changes, the address is smart-queried in the same
+// transaction, the change is rolled back (whole call fails / caught with ReplyOn::Error), then it is asked again ----------
+const NEW: &str = "@NEW";
+fn dump_q(g: &mut G, c: &str) -> QAct {
+    let qn = fresh(g);
+    QAct::Smart(c.to_string(), Box::new(QProg { node: qn, acts: vec![QAct::Dump], ans: Some(vec![5]) }))
+}
+fn probe_prog_for(g: &mut G, target: &str) -> Prog {
+    let n = fresh(g);
+    let q = dump_q(g, target);
+    leaf(n, vec![marker(n), Action::Q(QAct::Info(target.to_string())), Action::Q(q), Action::Q(QAct::Raw(target.to_string(), b"a".to_vec()))])
+}
+fn failing_msg(g: &mut G, c1: &str) -> Msg {
+    match g.rng.below(3) {
+        0 => Msg::Custom { ok: false, tag: 13 },
+        1 => {
+            let n = fresh(g);
+            Msg::Exec { c: c1.into(), p: Prog { node: n, acts: vec![marker(n)], out: Output::Fail }, funds: vec![] }
+        }
+        _ => Msg::BankSend { to: c1.into(), amt: vec![coin("uatom", 1_000_000)] },
+    }
+}
+/// `family` 0..7; contracts[0] (code 1, admin = users[0]) is the migrated one, contracts[1] (code 2, has reply) the prober.
+/// Returns the steps and whether the placeholder address NEW is used
+fn rollback_family(g: &mut G, family: u64) -> (Vec<Step>, bool) {
+    let b = G::block0();
+    let alice = g.users[0].clone();
+    let user = g.users[1].clone();
+    let (c0, c1) = (g.contracts[0].clone(), g.contracts[1].clone());
+    let new_code = *g.rng.pick(&[7u64, 9]);
+    let mut steps = vec![];
+    let mut push = |op: TopOp| steps.push(Step { block: b.clone(), op });
+    let mut uses_new = false;
+    let target: String;
+    match family % 7 {
+        // execute_multi: migrate, a sibling message smart-queries, a later message fails
+        0 => {
+            target = c0.clone();
+            let n = fresh(g);
+            let probe = probe_prog_for(g, &c0);
+            let fail = failing_msg(g, &c1);
+            push(TopOp::ExecMulti { sender: alice.clone(), ms: vec![Msg::Migrate { c: c0.clone(), new_code, p: leaf(n, vec![marker(n)]) }, Msg::Exec { c: c1.clone(), p: probe, funds: vec![] }, fail] });
+        }
+        // one migrate call whose entry point asks its own address and then rejects
+        1 => {
+            target = c0.clone();
+            let n = fresh(g);
+            let q = dump_q(g, &c0);
+            let p = Prog { node: n, acts: vec![marker(n), Action::Q(q), Action::Q(QAct::Info(c0.clone()))], out: Output::Fail };
+            if g.rng.chance(1, 2) {
+                push(TopOp::Exec { sender: alice.clone(), m: Msg::Migrate { c: c0.clone(), new_code, p } });
+            } else {
+                push(TopOp::HelperMigrate { sender: alice.clone(), c: c0.clone(), new_code, p });
+            }
+        }
+        // caught: c1 becomes admin of c0, dispatches the migration as a sub-message with ReplyOn::Error / Always;
+        // the reply that catches the failure asks c0
+        2 => {
+            target = c0.clone();
+            push(TopOp::Exec { sender: alice.clone(), m: Msg::UpdateAdmin { c: c0.clone(), a: c1.clone() } });
+            let (n, nm) = (fresh(g), fresh(g));
+            let q = dump_q(g, &c0);
+            let mig = Msg::Migrate { c: c0.clone(), new_code, p: Prog { node: nm, acts: vec![marker(nm), Action::Q(q)], out: Output::Fail } };
+            let on_err = probe_prog_for(g, &c0);
+            let nk = fresh(g);
+            let sub = Sub { id: 7, payload: vec![7], ro: if g.rng.chance(1, 2) { ReplyOnS::Error } else { ReplyOnS::Always }, m: Box::new(mig), on_ok: leaf(nk, vec![marker(nk)]), on_err };
+            let later = probe_prog_for(g, &c0);
+            let nl = fresh(g);
+            let sub2 = Sub { id: 8, payload: vec![], ro: ReplyOnS::Never, m: Box::new(Msg::Exec { c: c1.clone(), p: later, funds: vec![] }), on_ok: leaf(nl, vec![marker(nl)]), on_err: leaf(nl + 1_000_000, vec![]) };
+            let p = Prog { node: n, acts: vec![marker(n)], out: Output::Resp { attrs: vec![], events: vec![], data: None, subs: vec![sub, sub2] } };
+            push(TopOp::Exec { sender: user.clone(), m: Msg::Exec { c: c1.clone(), p, funds: vec![] } });
+        }
+        // execute_multi: instantiate, a sibling smart-queries the new address, a later message fails
+        3 => {
+            target = NEW.to_string();
+            uses_new = true;
+            let n = fresh(g);
+            let probe = probe_prog_for(g, NEW);
+            let fail = failing_msg(g, &c1);
+            let inst = Msg::Inst { code_id: 2, p: leaf(n, vec![marker(n), Action::Write(b"a".to_vec(), vec![9])]), funds: vec![], label: "ghost".into(), admin: None, salt: None };
+            push(TopOp::ExecMulti { sender: alice.clone(), ms: vec![inst, Msg::Exec { c: c1.clone(), p: probe, funds: vec![] }, fail] });
+        }
+        // bank supply: a burn, then a Supply query by a contract, then the whole execute_multi fails
+        5 => {
+            target = String::new();
+            let np = fresh(g);
+            let probe = leaf(np, vec![marker(np), Action::Q(QAct::Supply("uatom".into())), Action::Q(QAct::Supply("btc".into()))]);
+            let burn = if g.rng.chance(1, 2) {
+                Msg::BankBurn { amt: vec![coin("uatom", 3)] }
+            } else {
+                let (n, n3, n4) = (fresh(g), fresh(g), fresh(g));
+                let sub = Sub { id: 4, payload: vec![], ro: ReplyOnS::Never, m: Box::new(Msg::BankBurn { amt: vec![coin("uatom", 2)] }), on_ok: leaf(n3, vec![marker(n3)]), on_err: leaf(n4, vec![marker(n4)]) };
+                Msg::Exec { c: c0.clone(), p: Prog { node: n, acts: vec![marker(n)], out: Output::Resp { attrs: vec![], events: vec![], data: None, subs: vec![sub] } }, funds: vec![] }
+            };
+            let fail = if g.rng.chance(1, 2) {
+                Msg::Custom { ok: false, tag: 14 }
+            } else {
+                let n = fresh(g);
+                Msg::Exec { c: c1.clone(), p: Prog { node: n, acts: vec![marker(n)], out: Output::Fail }, funds: vec![] }
+            };
+            push(TopOp::ExecMulti { sender: user.clone(), ms: vec![burn, Msg::Exec { c: c1.clone(), p: probe, funds: vec![] }, fail] });
+        }
+        // bank supply, caught: c0 burns, a later sub-message asks the supply, c0's call fails, the caller's reply
+        // handles the error (and asks again); the outer transaction commits without any further balance write
+        6 => {
+            target = String::new();
+            let (n, n0, np, nk, nr) = (fresh(g), fresh(g), fresh(g), fresh(g), fresh(g));
+            let mk = |g: &mut G, id: u64, m: Msg| {
+                let (a, b) = (fresh(g), fresh(g));
+                Sub { id, payload: vec![], ro: ReplyOnS::Never, m: Box::new(m), on_ok: leaf(a, vec![marker(a)]), on_err: leaf(b, vec![marker(b)]) }
+            };
+            let s1 = mk(g, 1, Msg::BankBurn { amt: vec![coin("uatom", 2)] });
+            let s2 = mk(g, 2, Msg::Exec { c: c1.clone(), p: leaf(np, vec![marker(np), Action::Q(QAct::Supply("uatom".into()))]), funds: vec![] });
+            let s3 = mk(g, 3, Msg::Custom { ok: false, tag: 15 });
+            let inner = Msg::Exec { c: c0.clone(), p: Prog { node: n0, acts: vec![marker(n0)], out: Output::Resp { attrs: vec![], events: vec![], data: None, subs: vec![s1, s2, s3] } }, funds: vec![] };
+            let on_err = leaf(nr, vec![marker(nr), Action::Q(QAct::Supply("uatom".into())), Action::Q(QAct::Balance(c0.clone(), "uatom".into()))]);
+            let sub = Sub { id: 6, payload: vec![6], ro: ReplyOnS::Error, m: Box::new(inner), on_ok: leaf(nk, vec![marker(nk)]), on_err };
+            let p = Prog { node: n, acts: vec![marker(n)], out: Output::Resp { attrs: vec![], events: vec![], data: None, subs: vec![sub] } };
+            push(TopOp::Exec { sender: user.clone(), m: Msg::Exec { c: c1.clone(), p, funds: vec![] } });
+        }
+        // caught: an instantiate sub-message whose entry point asks its own (new) address and then fails
+        _ => {
+            target = NEW.to_string();
+            uses_new = true;
+            let (n, ni) = (fresh(g), fresh(g));
+            let q = dump_q(g, NEW);
+            let inst = Msg::Inst { code_id: 1, p: Prog { node: ni, acts: vec![marker(ni), Action::Write(b"a".to_vec(), vec![8]), Action::Q(q)], out: Output::Fail }, funds: vec![], label: "ghost".into(), admin: None, salt: None };
+            let on_err = probe_prog_for(g, NEW);
+            let nk = fresh(g);
+            let sub = Sub { id: 9, payload: vec![], ro: ReplyOnS::Error, m: Box::new(inst), on_ok: leaf(nk, vec![marker(nk)]), on_err };
+            let p = Prog { node: n, acts: vec![marker(n)], out: Output::Resp { attrs: vec![], events: vec![], data: None, subs: vec![sub] } };
+            push(TopOp::Exec { sender: user.clone(), m: Msg::Exec { c: c1.clone(), p, funds: vec![] } });
+        }
+    }
+    // later, in a transaction of its own (no funds: no balance write): an in-contract smart query to the address /
+    // an in-contract Supply query
+    let later = if target.is_empty() {
+        let n = fresh(g);
+        leaf(n, vec![marker(n), Action::Q(QAct::Supply("uatom".into())), Action::Q(QAct::Balance(c0.clone(), "uatom".into()))])
+    } else {
+        probe_prog_for(g, &target)
+    };
+    push(TopOp::Exec { sender: user, m: Msg::Exec { c: c1, p: later, funds: vec![] } });
+    (steps, uses_new)
+}
+/// replace the placeholder by the address the (rolled-back) instantiate was told in a first run
+fn resolve_new(sc: &mut Scenario, batch: &mut Vec<QAct>) {
+    let obs = run_scenario_q(sc, &batch[..0]);
+    let mut addr = None;
+    'outer: for (st, o) in sc.steps.iter().zip(obs.iter()) {
+        if serde_json::to_string(st).unwrap().contains(NEW) {
+            for e in &o.step.trace {
+                if let Entry::Call { ep: Ep::Inst, callee, .. } = e {
+                    addr = Some(callee.clone());
+                    break 'outer;
+                }
+            }
+        }
+    }
+    if let Some(a) = addr {
+        let js = serde_json::to_string(&(&*sc, &*batch)).unwrap().replace(NEW, &a);
+        let (s2, b2): (Scenario, Vec<QAct>) = serde_json::from_str(&js).unwrap();
+        *sc = s2;
+        *batch = b2;
+    }
+}
+fn batch_with_new(batch: &mut Vec<QAct>) {
+    batch.push(QAct::Info(NEW.to_string()));
+    batch.push(QAct::Smart(NEW.to_string(), Box::new(QProg { node: 800_010, acts: vec![QAct::Dump], ans: Some(vec![4]) })));
+    batch.push(QAct::Raw(NEW.to_string(), b"a".to_vec()));
+}
+
+/// fixed corpus: every rollback family (fresh chain each, so that the admin of c0 is what the family expects)
+fn fixed_rollbacks() -> Vec<(Scenario, Vec<QAct>)> {
+    let mut out = vec![];
+    for family in 0..7u64 {
+        let mut rng = common::Rng::new(777 + family);
+        let mut g = G::new(&mut rng, Cfg::default());
+        let mut steps = g.setup(2);
+        let (fs, uses_new) = rollback_family(&mut g, family);
+        steps.extend(fs);
+        // the same family once more: the second round starts with the cache of the first one
+        if family < 2 || family == 5 {
+            let (fs2, _) = rollback_family(&mut g, family);
+            steps.extend(fs2);
+        }
+        let mut sc = Scenario { codes: g.codes.clone(), steps, users: g.users.clone() };
+        let mut batch = batch_for(&sc.users, &g.contracts);
+        if uses_new {
+            batch_with_new(&mut batch);
+            resolve_new(&mut sc, &mut batch);
+        }
+        out.push((sc, batch));
+    }
+    out
+}
+
 fn fixed_shapes() -> (Scenario, Vec<QAct>) {
     let mut rng = common::Rng::new(4242);
     let mut g = G::new(&mut rng, Cfg::default());
@@ -528,6 +725,9 @@ fn main() {
         let (sc, batch) = fixed_shapes();
         emit10(&mut out, &sc, &batch, serde_json::json!({"fixed": "shapes"}));
     }
+    for (sc, batch) in fixed_rollbacks() {
+        emit10(&mut out, &sc, &batch, serde_json::json!({"fixed": "rollback"}));
+    }
     let mut cfg = Cfg::default();
     cfg.queries = true;
     cfg.funds = true;
@@ -547,10 +747,25 @@ fn main() {
         sprinkle(&mut g, &mut sc, n_setup);
         // the overwrite / remove / read shapes go right after the setup, where the keys they use are committed
         let shapes = shape_steps(&mut g, k);
+        let n_shapes = shapes.len();
         let tail = sc.steps.split_off(n_setup);
         sc.steps.extend(shapes);
         sc.steps.extend(tail);
-        let batch = batch_for(&sc.users, &g.contracts);
+        let mut batch = batch_for(&sc.users, &g.contracts);
+        // every second scenario: a rollback family right after the shapes (before the random tail changes admins / codes)
+        if g.rng.chance(1, 2) {
+            let fam = g.rng.below(7);
+            out.stat(&format!("rollback_family_{}", fam), 1);
+            let (fs, uses_new) = rollback_family(&mut g, fam);
+            let at = n_setup + n_shapes;
+            let tail = sc.steps.split_off(at);
+            sc.steps.extend(fs);
+            sc.steps.extend(tail);
+            if uses_new {
+                batch_with_new(&mut batch);
+                resolve_new(&mut sc, &mut batch);
+            }
+        }
         add_inst_probes(&mut sc, &batch);
         emit10(&mut out, &sc, &batch, serde_json::json!({}));
     }
